@@ -908,8 +908,12 @@ class ClientRequestBase:
         # host_port_subcomponent is None when the URL is a relative URL.
         # but we know we do not have a relative URL here.
         assert host is not None
-        self.headers[hdrs.HOST] = headers.pop(hdrs.HOST, host)
-        self.headers.extend(headers)
+        # `headers` belongs to the caller: ClientSession._request() builds the
+        # request of every retry / redirect hop from the same object.
+        self.headers[hdrs.HOST] = headers.get(hdrs.HOST, host)
+        self.headers.extend(
+            (k, v) for k, v in headers.items() if k.lower() != "host"
+        )
 
     def _create_response(
         self,
